@@ -60,12 +60,21 @@ def case(job):
             proj.write(f, {"README.md": "# demo\n", "README.rst": "demo\n====\n", "setup.py": "from setuptools import setup\nsetup(name='demo', version='0')\n"}[f])
         snaps = [proj.snapshot()]
         runs = []
-        from bumpver import utils
-        y0 = utils.now().year
-        for args in (["init", "--dry"], ["init"], ["show", "--no-fetch"], ["init"]):
-            runs.append(drive.cli(args, cwd=proj.root))
-            snaps.append(proj.snapshot())
-        y1 = utils.now().year
+        from bumpver import utils, version
+        # a quarter of the cases run on a pinned day around New Year, where the ISO week-numbering year and the calendar year differ (the initial version carries the calendar year)
+        real_now, real_today = utils.now, version.TODAY
+        if seed % 4 == 0:
+            day = [dt.datetime(2024, 12, 30, 12), dt.datetime(2027, 1, 1, 12), dt.datetime(2025, 12, 31, 12), dt.datetime(2028, 1, 2, 12)][(seed // 4) % 4]
+            utils.now = lambda: day
+            version.TODAY = day.date()
+        try:
+            y0 = utils.now().year
+            for args in (["init", "--dry"], ["init"], ["show", "--no-fetch"], ["init"]):
+                runs.append(drive.cli(args, cwd=proj.root))
+                snaps.append(proj.snapshot())
+            y1 = utils.now().year
+        finally:
+            utils.now, version.TODAY = real_now, real_today
     changed = []
     prefix_ok = True
     for a, b in zip(snaps, snaps[1:]):
